@@ -368,6 +368,50 @@ def run(ctx):
                               "the cache store fills key field %s from `%s` (expected a value derived from %s)" % (kf, src, want),
                               site=cb.where(bi_))
 
+    # ---------------------------------------------------------------- R6 row registers are set for every row
+    # `Scratch::work_row` stamps the new row with `scratch.push_lexeme_idx` — the key of the speculative row re-use test in
+    # advance_parser.  The register is a working register: it must be assigned on every path that leads to a row push, or
+    # the row carries the lexeme of whatever row was pushed before (by a mask walk, a validation, a commit: history).
+    # Decided per caller of just_push_row: the call is preceded, on all paths from the function's entry, by an assignment to
+    # the register in that function (or the function is itself only a wrapper whose every caller satisfies this).
+    reg = (SCR, "push_lexeme_idx")
+    readers = [i for i, b in P.bodies.items() if P._is_code(b) and reg in P.own_effects(b)[2] and i.startswith(NS)]
+    JPR = PS + "::just_push_row"
+
+    def sets_before(b, sites):
+        w = [bi for bi, (wr, m, r) in P.block_effects(b).items() if reg in wr]
+        if not w:
+            return False
+        return not [x for x in sites if x in b.reachable(0, cut_blocks=w)]
+
+    checked, bad = [], []
+    todo, seen = [JPR], set()
+    while todo:
+        callee = todo.pop()
+        if callee in seen:
+            continue
+        seen.add(callee)
+        for c in sorted(P.callers_of(callee)):
+            cb_ = P.bodies.get(c)
+            if cb_ is None or not P._is_code(cb_):
+                continue
+            sites = cb_.call_blocks(callee)
+            if not sites:
+                continue
+            if c == PS + "::new":
+                continue   # row 0 of a fresh engine: the register still has the initial value given by Scratch::new (no history yet)
+            if sets_before(cb_, sites):
+                checked.append(c)
+            elif c.startswith(PS + "::") and c != JPR and len(seen) < 6 and c.rsplit("::", 1)[1] in ("push_row",):
+                todo.append(c)   # a pure wrapper: its callers must set the register
+            else:
+                bad.append(c)
+    ctx.check(bool(readers) and bool(checked) and not bad, "C11-R6", "row-register:push_lexeme_idx-set-before-every-row",
+              "every path to just_push_row assigns scratch.push_lexeme_idx first (%s)" % ", ".join(x.rsplit("::", 1)[1] for x in checked),
+              "%s reach(es) just_push_row without assigning scratch.push_lexeme_idx: the new row is stamped with the lexeme of a row pushed "
+              "earlier (by a previous mask walk, validation or commit), and the row re-use test of advance_parser compares that stale stamp — "
+              "the mask depends on the engine's history" % ", ".join(bad), site=P.bodies[bad[0]].where() if bad else None)
+
     # ---------------------------------------------------------------- R4 per-token caches
     # Parser::force_bytes is not in this set: TokenParser::is_accepting is `!has_ff_bytes() &&
     # parser.is_accepting()`, forced bytes exist only in non-accepting states, and the ff cache is
